@@ -70,6 +70,7 @@ var propertyClauses = map[string]clauseInfo{
 			"processEmphasis, loop invariant INV: for every bucket k no element of the stack between stack_bottom and openersBottom[k] can match a closer of bucket k — established at entry, preserved when a bound is raised after a failed search, and preserved under every deletion from the stack (deleteDelimiterStack's shift contract, bounds clamped to the opener); hence a search that gives up at the cached bound has the result of the unbounded search of the specification",
 			"processEmphasis, at every wrap: the opener is the nearest element below the closer that matches it (rules 9/10 included), the closer is a '*'/'_' element with the closer flag, and strong emphasis is produced exactly when both delimiter nodes still have two characters (the spans have just been shortened by 2, else by 1)",
 			"deleteDelimiterStack: elements below i keep their place, elements from j on move down by j-i, same backing array",
+			"processEmphasis consumes exactly the delimiters above stack_bottom and leaves the ones below unchanged",
 		},
 		notDecided: []string{
 			"that the closer loop visits closers in stack order without skipping one (the inner scan is not given a two-state contract), and termination of the closer loop (it depends on the lengths of the delimiter nodes)",
@@ -182,6 +183,7 @@ var propertyClauses = map[string]clauseInfo{
 	},
 	"C05": {
 		decided: []string{
+			"finishLink (link-in-link deactivation): after a link has been formed every '[' opener still on the delimiter stack below it has lost its active flag (image openers keep theirs), the opener and everything above it are consumed, and the other elements keep their identity; it uses processEmphasis's contract (the delimiters below stack_bottom are untouched, the ones above are consumed)",
 			"BOUNDED (not a proof; see coverage.bounded): the whole node grammar and the accessor clauses of the statement (list/item/marker, definition children, phrasing-only paragraphs and headings, code/HTML block children, link/image tails, no link in a link, no unparsed node) on the finished trees of every input up to the stated bound",
 			"accessors agree with the shape: HeadingLevel is the stored level for ATX/setext headings and 0 elsewhere; IsOrderedList/IsTightList are functions of the delimiter / looseness fields; ListItemNumber is -1 or 0..999999999; LinkDestination/LinkTitle return a child of that kind among the last two children, or nil; InfoString is the first inline child of a fenced block when it has that kind",
 			"heading levels handed to the tree are 1-6 for ATX headings (parseATXHeading's level) and 1-2 for setext headings, at the call sites of the block-start closures",
